@@ -9,7 +9,7 @@ META = {
     "technique": "Rocq proof that the executable audit rc_exact_b decides 'reported count = handles + stored parent edges (+ manager-owned chain edges)' and that exact counts with no zero-count node imply every stored node is reachable from a handle; state-machine theorems on the interleaving model (whole collection frees exactly the unreferenced nodes); for MTBDDs a model of the dynamic terminal manager (hash-consed, reference-counted terminals in slots with a free chain) with the invariant 'values distinct, slots partitioned, count = owned edges + parent edges' preserved under every interleaving; correspondence: the audits run on a snapshot of the real manager after every step of histories with clone/drop (also on other threads), explicit and automatic gc, reordering and failing operations, plus capacity probes for inner nodes and terminals, and the extracted terminal-manager model is replayed on the lifted snapshot for every gc() and every constant()",
     "category": "proof",
     "design_ref": "DESIGN.md section 5, C05",
-    "level_text": "Theorems (coq/Props/C05.v): rc_exact_b_spec (the audit is exactly the property's counting equation), no_dead_b_spec and no_dead_reachable (on a well-formed table with exact counts, 'no node with count 0' means every stored node is reachable from a live handle, i.e. a collection left exactly the referenced nodes). Tie to the code: after every step of every history the extracted audit is evaluated on the lifted manager (for ZBDD the manager's own tautology chain is included as owner); after each gc() no unreferenced node may remain and every handle must denote the same value table as before; after dropping all handles and gc() the node count must be that of a fresh manager; a capacity probe fills a small manager with single-node functions that are all kept alive and requires the store to be completely full at the first out-of-memory, before and after a history (no slot is lost). MTBDD terminals (coq/Mgr/Terminals.v mirrors terminal_manager/dynamic.rs: get_edge, retain/release, iterator, gc, free chain; 36 theorems C05_term_*): the invariant (ids and values pairwise distinct, ids + free chain partition the slots, count = owner tokens + parent edges of stored inner nodes) holds in every state reachable under any interleaving of the threads' actions, collector steps and whole collections; gc removes exactly the terminals without owner and parent (any visiting order); get_edge returns the same id for a value until that terminal is collected, fails iff the value is absent and all slots are in use, and re-creates a collected value as a new entry; Manager::gc keeps a terminal iff a handle or a surviving inner node refers to it; after dropping all handles nothing is left and every slot is free; the iterator's retain and the consumer's drop_edge cancel. Tie: on every MTBDD snapshot the extracted invariant checker minv_b holds on the lifted state; for every GC the ids of the surviving terminals and inner nodes equal those of the extracted tcollect on the pre-state and gc()'s return value equals tcollect_count; for every constant() the extracted tstep(TGet) decides live terminal (the handle must be exactly it) / new slot (an id not in use) / out of memory; a terminal capacity probe (managers with 3..12 terminal slots) must find every slot in use at the first OutOfMemory, before and after a history with collections.",
+    "level_text": "Theorems (coq/Props/C05.v): rc_exact_b_spec (the audit is exactly the property's counting equation), no_dead_b_spec and no_dead_reachable (on a well-formed table with exact counts, 'no node with count 0' means every stored node is reachable from a live handle, i.e. a collection left exactly the referenced nodes). Tie to the code: after every step of every history the extracted audit is evaluated on the lifted manager (for ZBDD the manager's own tautology chain is included as owner); after each gc() no unreferenced node may remain and every handle must denote the same value table as before; after dropping all handles and gc() the node count must be that of a fresh manager; a capacity probe fills a small manager with single-node functions that are all kept alive and requires the store to be completely full at the first out-of-memory, before and after a history (no slot is lost). MTBDD terminals (coq/Mgr/Terminals.v mirrors terminal_manager/dynamic.rs: get_edge, retain/release, iterator, gc, free chain; 36 theorems C05_term_*): the invariant (ids and values pairwise distinct, ids + free chain partition the slots, count = owner tokens + parent edges of stored inner nodes) holds in every state reachable under any interleaving of the threads' actions, collector steps and whole collections; gc removes exactly the terminals without owner and parent (any visiting order); get_edge returns the same id for a value until that terminal is collected, fails iff the value is absent and all slots are in use, and re-creates a collected value as a new entry; Manager::gc keeps a terminal iff a handle or a surviving inner node refers to it; after dropping all handles nothing is left and every slot is free; the iterator's retain and the consumer's drop_edge cancel. Tie: on every MTBDD snapshot the extracted invariant checker minv_b holds on the lifted state; for every GC the ids of the surviving terminals and inner nodes equal those of the extracted tcollect on the pre-state and gc()'s return value equals tcollect_count; for every constant() the extracted tstep(TGet) decides live terminal (the handle must be exactly it) / new slot (an id not in use) / out of memory; a terminal capacity probe (managers with 3..12 terminal slots) must find every slot in use at the first OutOfMemory, before and after a history with collections. Collector replay (package C02s; C05_sm_collect_keys / _count, C05_gc_snap_lift / _exact / _count / _example, coq/Mgr/ConcGcCount.v): the number of nodes a collection frees (Manager::gc's return value) is the number of stored nodes no owned edge reaches; for a snapshot lifted by of_snap (handles and the ZBDD chain edges as owners) that passes cinv_b, a node is stored after collect iff it was stored and is reachable (TableProofs.reachable) from a handle or chain edge, survivors keep level and children. Tie: every explicit gc() of the Boolean-kind histories is replayed by ocaml/c05s_main.ml on the extracted of_snap + ConcGc.collect: surviving ids, their levels / children / reference counts and gc()'s return value (exact when gc_count advanced by one, <= when the background collector ran first) must equal the model's; reach_own_b / garbage / idempotence cross-checked on tables up to 60 nodes.",
     "level_note": "Trusted: Coq kernel, extraction, OCaml driver, Rust harness, public accessor API (ref_count). Free lists, chunked slot allocation and the timing of the background collector are not modelled: their effect is observed at quiescence (snapshots are taken under the exclusive manager lock). Terminal reference counts are not readable through the public API: the lifted terminal table carries the counts the invariant prescribes (handles + parent edges); a wrong stored count shows as a terminal that survives or vanishes against the model at the next gc(). The slot order of the terminal manager's hash table (visiting order of gc and of the iterator, hence the order of the free chain) is not fixed by the model: theorems hold for every order; the overflow guard of retain and memory orderings are not modelled.",
 }
 ALLOWED_AXIOMS = ()
@@ -36,6 +36,15 @@ def export_extra(rng, nv, pick, fresh, live):
     are met again and again; the counts must be back to 'handles + stored parents' afterwards)"""
     hs = [pick() for _ in range(rng.randrange(1, 4))]
     return f"EXPORT {rng.choice('ab')} " + " ".join(f"h{h}" for h in hs)
+
+
+def case_capacity_tdd(cid, rng, cap):
+    """TDD: ternary capacity probe (T3FILL: single nodes until out-of-memory, all alive), history on a small manager
+    (automatic gc from 100 slots on, failing ops), drop all, gc, probe again"""
+    h, ops = ddgen.tdd_case_history(cid, rng, nv=rng.randrange(4, 6), length=rng.choice([40, 80]), cap=cap, addvars=False,
+                                    reorder=False)
+    fill = ddgen.t3fill_op(cap)
+    return (h, ops[:1] + [fill, "GC", "SNAP"] + ops[1:] + [fill, "GC", "SNAP"])
 
 
 def gen_cases(ctx):
@@ -83,15 +92,62 @@ def gen_cases(ctx):
                 body.append(f"CONSTN h{20 + rng.randrange(3)} {rng.choice(vals)}")
         ops = ops[:1] + ["TFILL", "GC"] + body + ["TFILL", "GC", "SNAP"]
         cases.append((h + f" tcap={tcap}" + (" gcall=1" if rng.random() < 0.2 else ""), ops)); cid += 1
+    # TDD (package TDDx; theorems C05_tdd_*): ternary nodes: count = handles + (true, unknown, false) child slots of
+    # stored nodes; histories with clone / drop (also on another thread), gc, reordering, add_vars; small stores
+    # framed by the ternary capacity probe
+    for _ in range(300 if thorough else 36):
+        cases.append(ddgen.tdd_case_history(f"th{cid}", rng, length=rng.choice([40, 80, 150]), threads=rng.choice([1, 1, 4]))); cid += 1
+    for _ in range(200 if thorough else 24):
+        cases.append(case_capacity_tdd(f"tc{cid}", rng, rng.choice([20, 30, 45, 60, 90, 120, 160, 200]))); cid += 1
     return cases
 
 
+C05S_VOS = ddcommon.MODEL_VOS + ["Mgr/Conc.vo", "Mgr/ConcGc.vo", "Mgr/ConcGcCount.vo"]
+
+
+def build_c05s(ctx):
+    """second driver (Boolean kinds): ocaml/c05s_main.ml linked against the extraction of coq/Extract/ExC05s.v
+    (Mgr/Conc.v + Mgr/ConcGc.v): every explicit gc() of a history is replayed on the extracted collector
+    ConcGc.collect (surviving ids, counts, return value); same harness (h_dd)."""
+    pid = ctx.pid
+    ctx.pid = "C05s"
+    try:
+        drv = vf.ocaml_build(ctx, "ExC05s.v", "c05s_main.ml", extra_ml=["dd_types.ml", "zchain.ml"], model_vos=C05S_VOS)
+    finally:
+        ctx.pid = pid
+    bins = vf.cargo_build(["h_dd"])
+    return bins["h_dd"], drv
+
+
+class _c05s_driver:
+    """ddcommon.run_dd / replay_dd with the collector-replay driver"""
+    def __enter__(self):
+        self.orig = ddcommon.build_dd
+        ddcommon.build_dd = build_c05s
+
+    def __exit__(self, *a):
+        ddcommon.build_dd = self.orig
+
+
 def run(ctx):
+    cases = gen_cases(ctx)
+    # pass 1 (proof gate + collector replay): the histories of the Boolean kinds through the extracted
+    # ConcGc.collect; violations are reported here, the evidence is written by pass 2
+    boolc = [c for c in cases if c[0].split(" kind=")[1].split()[0] in ddgen.KINDS_BOOL and not c[0].startswith("L")]
+    with _c05s_driver():
+        ok_s, bad_s = ddcommon.run_dd(ctx, ["C05"], boolc, rule="", allowed_axioms=ALLOWED_AXIOMS, drv_args=["--c05s"],
+                                      write_ev=False, debug_cases=None, sig_extra="gc-model")
     ddcommon.run_dd(
-        ctx, ["C05"], gen_cases(ctx),
-        rule="MTBDD terminals: histories over I64 and F64 terminals with a snapshot after every op (model invariant on every lifted snapshot; every gc() and constant() replayed on the extracted terminal-manager model); managers with 3..12 terminal slots framed by the terminal capacity probe, constants re-created right after collections, gc before every op in a fifth of them; large managers (2-3 allocation chunks; thorough 2-5): sessions that create up to 1200 nodes, drop them and collect inside one manager session, then a capacity probe that fills the store completely; MTBDD histories (arithmetic, ite, restrict, constants; gc; final drop all + gc: no inner node and no terminal left, after every gc no unreferenced terminal survives); per kind (bdd, bcdd, zbdd): random histories (apply, quantification, substitution, clone, drop, drop on another thread, gc, add_vars, set_var_order) with a snapshot and the reference-count audit after every op and a final 'drop all; gc; snapshot'; small-capacity managers (120..500 nodes, automatic collection at the high-water mark, failing operations) framed by the capacity probe. non-trivial = case with >= 3 ops",
+        ctx, ["C05"], cases, proofs=False,
+        extra_cov={"gc_model_cases_ok": ok_s, "gc_model_cases_bad": len(bad_s)},
+        rule="MTBDD terminals: histories over I64 and F64 terminals with a snapshot after every op (model invariant on every lifted snapshot; every gc() and constant() replayed on the extracted terminal-manager model); managers with 3..12 terminal slots framed by the terminal capacity probe, constants re-created right after collections, gc before every op in a fifth of them; large managers (2-3 allocation chunks; thorough 2-5): sessions that create up to 1200 nodes, drop them and collect inside one manager session, then a capacity probe that fills the store completely; MTBDD histories (arithmetic, ite, restrict, constants; gc; final drop all + gc: no inner node and no terminal left, after every gc no unreferenced terminal survives); per kind (bdd, bcdd, zbdd): random histories (apply, quantification, substitution, clone, drop, drop on another thread, gc, add_vars, set_var_order) with a snapshot and the reference-count audit after every op and a final 'drop all; gc; snapshot'; small-capacity managers (120..500 nodes, automatic collection at the high-water mark, failing operations) framed by the capacity probe; tdd: 36 (thorough 300) random histories (constants, variables, not, 8 connectives, ite, cofactors, clone, drop, drop on another thread, gc, add_vars, set_var_order; 1 or 4 workers) with the generic audit AND the ternary audit td_rc_b after every op, no unreferenced node after gc, final 'drop all; gc; snapshot' = empty store; 24 (thorough 200) stores of 20..200 nodes framed by the ternary capacity probe T3FILL (single-node functions x0 op g, all alive, until out-of-memory: every slot in use), failing operations in between. non-trivial = case with >= 3 ops",
         allowed_axioms=ALLOWED_AXIOMS)
 
 
 def replay(ctx, path):
-    ddcommon.replay_dd(ctx, path)
+    import json
+    if "--c05s" in json.load(open(path)).get("drv_args", []):
+        with _c05s_driver():
+            ddcommon.replay_dd(ctx, path)
+    else:
+        ddcommon.replay_dd(ctx, path)
